@@ -47,6 +47,8 @@ Universal(fr, r, R, D, ret) ==
 (*   oversize  more bytes than an ADU can hold, no earlier complete reply    *)
 (*   writeerr  the write is rejected        cancel  the caller cancels       *)
 (*   notconnected / nilreq                                                   *)
+(*   connectfailed(nil)  the only Connect failed: the dial function returned *)
+(*             an error together with a connection / a typed nil connection  *)
 Demand(fault, fr, r, R, D, ret, touched) ==
     CASE fault = "none" ->
             IF ProperNormal(fr, r, R) THEN
@@ -70,7 +72,7 @@ Demand(fault, fr, r, R, D, ret, touched) ==
             IF ret.kind = "clienterr" /\ ret.wrapsCause = 1 THEN "ok" ELSE "write-error-not-reported-as-client-error-wrapping-cause"
       [] fault = "cancel" ->
             IF ret.kind = "ctxerr" THEN "ok" ELSE "cancellation-not-reported-as-context-error"
-      [] fault \in {"notconnected", "nilreq"} ->
+      [] fault \in {"notconnected", "nilreq", "connectfailed", "connectfailednil"} ->
             IF ret.kind = "ok" THEN "success-without-connection-or-request"
             ELSE IF touched THEN "transport-touched-without-connection-or-request"
             ELSE "ok"
